@@ -173,6 +173,7 @@ func c14NoFlags() ([]bool, [][]bool) {
 }
 
 // H1: arbitrary calls between three apps; A listed, B listed or not, C excluded or not.
+//
 //verif:shard-quick 8 4
 //verif:shard-thorough 16 6
 func Harness_C14_CallGraph() {
@@ -227,6 +228,7 @@ func Harness_C14_Nesting() {
 
 // H3: pass-through applications, including cycles among them: terminates; the calls
 // made by the pass-through endpoint that was called are drawn; everything drawn is sound.
+//
 //verif:shard-quick 8 4
 //verif:shard-thorough 8 4
 func Harness_C14_Passthrough() {
